@@ -760,3 +760,411 @@ theorem gproj_roundtrip (cfg : Cfg) (h1 : cfg.r 1 = 1) (h0 : cfg.r 0 = 0) (hu : 
     · rw [hs, hsem]; simp only [canonProj, rProj, List.map_map]; rfl
 
 end NmlVerif.Hdf5
+
+/-! ## input lists -/
+
+namespace NmlVerif.Hdf5
+set_option linter.unusedSimpArgs false
+
+structure InpOK (cfg : Cfg) (pop : String) (i : Inp) : Prop where
+  idExact : Exact cfg.r i.id
+  cellExact : Exact cfg.r i.target.idx
+  segExact : Exact cfg.r (getSeg i)
+  ref : RefOK pop i.target
+  frac : cfg.fracTruthy = true → i.frac ≠ some 0
+
+structure ILOK (cfg : Cfg) (l : IList) : Prop where
+  inp : ∀ i ∈ l.inputs ++ l.inputWs, InpOK cfg l.pop i
+  unw : ∀ i ∈ l.inputs, i.weight = none
+  nonempty : l.inputs ++ l.inputWs ≠ []
+
+def wOfI (i : Inp) : Rat := i.weight.getD 1
+
+def inDOf (r : Rat → Rat) (i : Inp) : InD := ⟨i.id, i.target.idx, getSeg i, r (i.frac.getD (1/2)), r (wOfI i)⟩
+
+theorem getFrac_eq (cfg : Cfg) (i : Inp) (h : cfg.fracTruthy = true → i.frac ≠ some 0) :
+    getFrac cfg i = i.frac.getD (1/2) := by
+  unfold getFrac
+  cases hf : i.frac with
+  | none => rfl
+  | some f =>
+    cases ht : cfg.fracTruthy
+    · simp
+    · have := h ht
+      rw [hf] at this
+      have hne : f ≠ 0 := fun h0 => this (by rw [h0])
+      simp [hne]
+
+theorem decode_inpRowU (cfg : Cfg) (h1 : cfg.r 1 = 1) (hu : cfg.unweighted = 1) (pop : String)
+    (w : Bool) (k : Nat) (i : Inp) (hx : InpOK cfg pop i) (hw : i.weight = none) :
+    decodeInpRow (ilCols w) k (inpRowU cfg w i) = .ok (inDOf cfg.r i) := by
+  obtain ⟨e1, e2, e3, e4, e5⟩ := colIdx_il w
+  have t0 := trunc_exact hx.idExact
+  have t1 := trunc_exact hx.cellExact
+  have t2 := trunc_exact hx.segExact
+  have hf := getFrac_eq cfg i hx.frac
+  unfold decodeInpRow
+  rw [e1, e2, e3, e4, e5]
+  cases w
+  · simp [inDOf, wOfI, hw, inpRowU, inpRowBase, cell, cellOr, cellReq, bind, Except.bind, pure, Except.pure, Except.map, t0, t1, t2, hf, h1]
+  · simp [inDOf, wOfI, hw, inpRowU, inpRowBase, cell, cellOr, cellReq, bind, Except.bind, pure, Except.pure, Except.map, t0, t1, t2, hf, hu]
+
+theorem decode_inpRowW (cfg : Cfg) (pop : String) (k : Nat) (i : Inp) (hx : InpOK cfg pop i) :
+    decodeInpRow (ilCols true) k (inpRowW cfg i) = .ok (inDOf cfg.r i) := by
+  obtain ⟨e1, e2, e3, e4, e5⟩ := colIdx_il true
+  have t0 := trunc_exact hx.idExact
+  have t1 := trunc_exact hx.cellExact
+  have t2 := trunc_exact hx.segExact
+  have hf := getFrac_eq cfg i hx.frac
+  unfold decodeInpRow
+  rw [e1, e2, e3, e4, e5]
+  simp [inDOf, wOfI, inpRowW, inpRowBase, cell, cellOr, cellReq, bind, Except.bind, pure, Except.pure, Except.map, t0, t1, t2, hf]
+
+def wFlagI (l : IList) : Bool := !l.inputWs.isEmpty
+def encRowsI (cfg : Cfg) (l : IList) : List (List Rat) :=
+  l.inputs.map (inpRowU cfg (wFlagI l)) ++ l.inputWs.map (inpRowW cfg)
+
+theorem decode_encRowsI (cfg : Cfg) (h1 : cfg.r 1 = 1) (hu : cfg.unweighted = 1) (l : IList) (hok : ILOK cfg l) :
+    mapIdxE (decodeInpRow (ilCols (wFlagI l))) 0 (encRowsI cfg l) = .ok ((l.inputs ++ l.inputWs).map (inDOf cfg.r)) := by
+  unfold encRowsI
+  rw [List.map_append]
+  apply mapIdxE_append_ok
+  · apply mapIdxE_map_ok'
+    intro k i hi
+    exact decode_inpRowU cfg h1 hu l.pop _ k i (hok.inp i (by simp [hi])) (hok.unw i hi)
+  · apply mapIdxE_map_ok'
+    intro k i hi
+    have hwf : wFlagI l = true := by
+      simp only [wFlagI, Bool.not_eq_eq_eq_not, Bool.not_true, List.isEmpty_eq_false_iff]
+      intro h; rw [h] at hi; cases hi
+    rw [hwf]
+    exact decode_inpRowW cfg l.pop k i (hok.inp i (by simp [hi]))
+
+theorem semInp_mk (r : Rat → Rat) (pop : String) (p : Pop) (hp : p.id = pop) (i : Inp) (hr : RefOK pop i.target)
+    (wopt : Option Rat) (hw : wopt.getD 1 = r (wOfI i)) :
+    semInp pop { mkInp p (inDOf r i) with weight := wopt } = rInp r (semInp pop i) := by
+  have e1 : endOf pop i.target = (pop, i.target.idx) := hr
+  simp only [semInp, rInp, mkInp, inDOf, endOf_pathFor, hp, e1, hw, getSeg, wOfI]
+  congr 1
+  · by_cases h : i.seg.getD 0 = 0 <;> simp [h]
+  · by_cases h : r (i.frac.getD (1/2)) = 1/2 <;> simp [h]
+
+theorem ilBody_one (top : List Comp) (pops : List Pop) (id comp pop : String) (a : Arr) (rows : List InD) (p : Pop)
+    (hm : mapIdxE (decodeInpRow a.cols) 0 a.rows = .ok rows) (hne : rows.isEmpty = false)
+    (hp : findPop pops pop = .ok p) :
+    ilBody top pops id comp pop [a] = .ok (.il (buildIL id comp pop p rows), [getById top comp]) := by
+  simp only [ilBody, hm, hne, hp, Bool.false_eq_true, if_false]
+
+theorem decodeILLeaf_attrs (cfg : Cfg) (top : List Comp) (pops : List Pop) (name id comp pop : String) (arrays : List Arr) :
+    decodeILLeaf cfg top pops ⟨name, [("id", .str id), ("component", .str comp), ("population", .str pop)], arrays⟩ =
+      ilBody top pops id comp pop arrays := by
+  simp [decodeILLeaf, strAttr, lookupAttr]
+
+theorem ilist_roundtrip (cfg : Cfg) (h1 : cfg.r 1 = 1) (hu : cfg.unweighted = 1) (top : List Comp) (pops : List Pop)
+    (l : IList) (pop : Pop) (hpop : findPop pops l.pop = .ok pop) (hok : ILOK cfg l) :
+    ∃ leaf l' objs, encodeIList cfg l = .ok leaf ∧ leaf.name = ilLeafName l.id ∧
+      decodeILLeaf cfg top pops leaf = .ok (.il l', objs) ∧ (∀ c, some c ∈ objs → c ∈ top) ∧
+      semIL l' = rIL cfg.r (semIL l) := by
+  have hpid := findPop_id hpop
+  have hne : (encRowsI cfg l).isEmpty = false := by
+    have := hok.nonempty
+    simp only [encRowsI, List.isEmpty_eq_false_iff, ne_eq, List.append_eq_nil_iff, List.map_eq_nil_iff]
+    simpa using this
+  have hne2 : ((l.inputs ++ l.inputWs).map (inDOf cfg.r)).isEmpty = false := by
+    simpa using hok.nonempty
+  refine ⟨⟨ilLeafName l.id, [("id", .str l.id), ("component", .str l.comp), ("population", .str l.pop)],
+            [⟨l.id, ilCols (wFlagI l), encRowsI cfg l⟩]⟩,
+          buildIL l.id l.comp l.pop pop ((l.inputs ++ l.inputWs).map (inDOf cfg.r)), [getById top l.comp], ?_, rfl, ?_, ?_, ?_⟩
+  · unfold encodeIList
+    show (if (encRowsI cfg l).isEmpty then _ else _) = _
+    rw [hne]; rfl
+  · rw [decodeILLeaf_attrs]
+    exact ilBody_one top pops _ _ _ _ _ pop (decode_encRowsI cfg h1 hu l hok) hne2 hpop
+  · intro c hc
+    simp only [List.mem_cons, List.mem_nil_iff, or_false] at hc
+    exact getById_mem hc.symm
+  · simp only [buildIL, semIL, rIL, canonInps]
+    rw [List.map_append]
+    simp only [List.map_map]
+    congr 1
+    congr 1
+    · apply filter_map_sem
+      · intro i hi
+        simp only [inDOf, rInp, semInp, wOfI]
+        exact decide_eq_decide.mpr Iff.rfl
+      · intro i hi hw
+        have hw' : cfg.r (wOfI i) = 1 := of_decide_eq_true hw
+        have := semInp_mk cfg.r l.pop pop hpid i (hok.inp i hi).ref none (by simpa using hw'.symm)
+        have e : ({ mkInp pop (inDOf cfg.r i) with weight := none } : Inp) = mkInp pop (inDOf cfg.r i) := rfl
+        rw [e] at this
+        exact this
+    · apply filter_map_sem
+      · intro i hi
+        simp only [inDOf, rInp, semInp, wOfI]
+        exact decide_eq_decide.mpr Iff.rfl
+      · intro i hi _
+        exact semInp_mk cfg.r l.pop pop hpid i (hok.inp i hi).ref (some (cfg.r (wOfI i))) (by simp)
+
+end NmlVerif.Hdf5
+
+/-! ## populations -/
+
+namespace NmlVerif.Hdf5
+set_option linter.unusedSimpArgs false
+
+theorem prop_prefix (t : String) : propPrefix.toList.isPrefixOf ("property:" ++ t).toList = true := by
+  simp [propPrefix, String.toList_append]
+
+theorem prop_drop (t : String) : String.ofList (("property:" ++ t).toList.drop propPrefix.length) = t := by
+  have hl : propPrefix.length = 9 := by decide
+  rw [hl]
+  simp [String.toList_append]
+
+theorem prop_ne (t k : String) (hk : k = "id" ∨ k = "component" ∨ k = "size" ∨ k = "type") : "property:" ++ t ≠ k := by
+  intro h
+  have := congrArg String.toList h
+  rcases hk with rfl | rfl | rfl | rfl <;> simp [String.toList_append] at this
+
+theorem prop_inj (t u : String) (h : "property:" ++ t = "property:" ++ u) : t = u := by
+  have := congrArg String.toList h
+  simp [String.toList_append] at this
+  exact String.toList_inj.mp this
+
+def hasKey (a : Attrs) (k : String) : Prop := ∃ kv ∈ a, kv.1 = k
+
+theorem setAttr_new (a : Attrs) (k : String) (v : AttrV) (h : ¬ hasKey a k) : setAttr a k v = a ++ [(k, v)] := by
+  unfold setAttr
+  have : a.any (fun p => p.1 = k) = false := by
+    rw [List.any_eq_false]
+    intro kv hkv
+    simp only [decide_eq_true_eq]
+    intro he
+    exact h ⟨kv, hkv, he⟩
+  simp [this]
+
+theorem lookupAttr_skip (a b : Attrs) (k : String) (h : ¬ hasKey a k) : lookupAttr (a ++ b) k = lookupAttr b k := by
+  unfold lookupAttr
+  rw [List.find?_append]
+  have : a.find? (fun p => p.1 = k) = none := by
+    rw [List.find?_eq_none]
+    intro kv hkv
+    simp only [decide_eq_true_eq]
+    intro he
+    exact h ⟨kv, hkv, he⟩
+  simp [this]
+
+def propAttrs (props : List (String × String)) : Attrs := props.map (fun kv => ("property:" ++ kv.1, AttrV.str kv.2))
+
+theorem hasKey_propAttrs {props : List (String × String)} {k : String} (h : hasKey (propAttrs props) k) :
+    ∃ t, t ∈ props.map (·.1) ∧ k = "property:" ++ t := by
+  obtain ⟨kv, hkv, he⟩ := h
+  simp only [propAttrs, List.mem_map] at hkv
+  obtain ⟨q, hq, rfl⟩ := hkv
+  exact ⟨q.1, List.mem_map.mpr ⟨q, hq, rfl⟩, he.symm⟩
+
+theorem fold_setAttr (a0 : Attrs) (h0 : ∀ t, ¬ hasKey a0 ("property:" ++ t)) :
+    ∀ (props done : List (String × String)), ((done ++ props).map (·.1)).Nodup →
+      props.foldl (fun a kv => setAttr a ("property:" ++ kv.1) (.str kv.2)) (a0 ++ propAttrs done) =
+        a0 ++ propAttrs (done ++ props)
+  | [], done, _ => by simp
+  | kv :: rest, done, hnd => by
+    simp only [List.foldl_cons]
+    have hnew : ¬ hasKey (a0 ++ propAttrs done) ("property:" ++ kv.1) := by
+      rintro ⟨x, hx, he⟩
+      rcases List.mem_append.mp hx with hx | hx
+      · exact h0 kv.1 ⟨x, hx, he⟩
+      · obtain ⟨t, ht, hk⟩ := hasKey_propAttrs ⟨x, hx, he⟩
+        have htk : t = kv.1 := (prop_inj _ _ hk).symm
+        subst htk
+        simp only [List.map_append, List.map_cons] at hnd
+        have := (List.nodup_append.mp hnd).2.2
+        exact this _ ht _ (by simp) rfl
+    rw [setAttr_new _ _ _ hnew]
+    have e : a0 ++ propAttrs done ++ [("property:" ++ kv.1, AttrV.str kv.2)] = a0 ++ propAttrs (done ++ [kv]) := by
+      simp [propAttrs]
+    rw [e]
+    have := fold_setAttr a0 h0 rest (done ++ [kv]) (by simpa using hnd)
+    simpa using this
+
+
+/-- instance ids are the row numbers (the table has no id column) -/
+def IdsAreIndex : Nat → List Inst → Prop
+  | _, [] => True
+  | n, i :: is => i.id = (n : Int) ∧ IdsAreIndex (n + 1) is
+
+structure PopOK (p : Pop) : Prop where
+  sized : p.insts = [] → ∃ n, p.size = some n
+  ids : IdsAreIndex 0 p.insts
+  tagsNodup : (p.props.map (·.1)).Nodup
+  tagsCut : ∀ kv ∈ p.props, cutTag kv.1 = kv.1
+
+def baseAttrs (p : Pop) : Attrs := [("id", .str p.id), ("component", .str p.comp)]
+
+theorem base_noprop (p : Pop) (t : String) : ¬ hasKey (baseAttrs p) ("property:" ++ t) := by
+  rintro ⟨kv, hkv, he⟩
+  simp only [baseAttrs, List.mem_cons, List.mem_nil_iff, or_false] at hkv
+  rcases hkv with rfl | rfl
+  · exact prop_ne t "id" (Or.inl rfl) he.symm
+  · exact prop_ne t "component" (Or.inr (Or.inl rfl)) he.symm
+
+theorem nokey_a1 (p : Pop) (k : String) (hk : k = "size" ∨ k = "type") : ¬ hasKey (baseAttrs p ++ propAttrs p.props) k := by
+  rintro ⟨kv, hkv, he⟩
+  rcases List.mem_append.mp hkv with hkv | hkv
+  · simp only [baseAttrs, List.mem_cons, List.mem_nil_iff, or_false] at hkv
+    rcases hkv with rfl | rfl <;> rcases hk with rfl | rfl <;> simp at he
+  · obtain ⟨t, _, hkt⟩ := hasKey_propAttrs ⟨kv, hkv, he⟩
+    rcases hk with rfl | rfl
+    · exact prop_ne t "size" (by simp) hkt.symm
+    · exact prop_ne t "type" (by simp) hkt.symm
+
+theorem filterMap_id_of_forall {α : Type} (f : α → Option α) : ∀ (l : List α), (∀ a ∈ l, f a = some a) → l.filterMap f = l
+  | [], _ => rfl
+  | a :: as, h => by
+    rw [List.filterMap_cons, h a (by simp)]
+    simp only
+    rw [filterMap_id_of_forall f as (fun b hb => h b (by simp [hb]))]
+
+theorem propsOf_eq (cfg : Cfg) (p : Pop) (tail : Attrs) (hcut : ∀ kv ∈ p.props, cutTag kv.1 = kv.1)
+    (htail : ∀ kv ∈ tail, propPrefix.toList.isPrefixOf kv.1.toList = false) :
+    propsOf cfg (baseAttrs p ++ propAttrs p.props ++ tail) = p.props := by
+  unfold propsOf
+  rw [List.filterMap_append, List.filterMap_append]
+  have h1 : (baseAttrs p).filterMap (fun kv =>
+      if propPrefix.toList.isPrefixOf kv.1.toList then
+        some (cutTag (String.ofList (kv.1.toList.drop propPrefix.length)), (strAttr cfg [kv] kv.1).getD "None")
+      else none) = [] := by
+    simp [baseAttrs, propPrefix]
+  have h3 : tail.filterMap (fun kv =>
+      if propPrefix.toList.isPrefixOf kv.1.toList then
+        some (cutTag (String.ofList (kv.1.toList.drop propPrefix.length)), (strAttr cfg [kv] kv.1).getD "None")
+      else none) = [] := by
+    rw [List.filterMap_eq_nil_iff]
+    intro kv hkv
+    simp [htail kv hkv]
+  rw [h1, h3]
+  simp only [List.nil_append, List.append_nil, propAttrs, List.filterMap_map]
+  have : ∀ kv ∈ p.props, ((fun kv : String × AttrV =>
+      if propPrefix.toList.isPrefixOf kv.1.toList then
+        some (cutTag (String.ofList (kv.1.toList.drop propPrefix.length)), (strAttr cfg [kv] kv.1).getD "None")
+      else none) ∘ (fun kv : String × String => ("property:" ++ kv.1, AttrV.str kv.2))) kv = some kv := by
+    intro kv hkv
+    simp only [Function.comp, prop_prefix, if_true, prop_drop, hcut kv hkv]
+    simp [strAttr, lookupAttr]
+  exact filterMap_id_of_forall _ _ this
+
+
+theorem decode_locRow (cfg : Cfg) (k : Nat) (i : Inst) :
+    decodeLocRow none 0 1 2 k [cfg.r i.x, cfg.r i.y, cfg.r i.z] = .ok ⟨(k : Int), cfg.r i.x, cfg.r i.y, cfg.r i.z⟩ := by
+  simp [decodeLocRow, cell, bind, Except.bind, pure, Except.pure]
+
+def locRows (cfg : Cfg) (p : Pop) : List (List Rat) := p.insts.map (fun i => [cfg.r i.x, cfg.r i.y, cfg.r i.z])
+
+def decInsts (cfg : Cfg) (p : Pop) : List Inst := zipIdx (fun k i => (⟨(k : Int), cfg.r i.x, cfg.r i.y, cfg.r i.z⟩ : Inst)) 0 p.insts
+
+theorem decodeLocs_enc (cfg : Cfg) (p : Pop) :
+    decodeLocs ⟨p.id, locCols, locRows cfg p⟩ = .ok (decInsts cfg p) := by
+  obtain ⟨e0, e1, e2, e3⟩ := colIdx_loc
+  unfold decodeLocs locIdx
+  simp only [e0, e1, e2, e3, bind, Except.bind]
+  unfold locRows decInsts
+  apply mapIdxE_map_ok
+  intro k i _
+  exact decode_locRow cfg k i
+
+theorem ids_zipIdx (g : Nat → Inst → Inst) (hg : ∀ k i, (g k i).id = (k : Int)) :
+    ∀ (n : Nat) (l : List Inst), IdsAreIndex n l → (zipIdx g n l).map (·.id) = l.map (·.id)
+  | _, [], _ => rfl
+  | n, i :: is, h => by
+    simp only [zipIdx, List.map_cons, hg, h.1]
+    rw [ids_zipIdx g hg (n + 1) is h.2]
+
+/-- the attributes the writer leaves on a population group -/
+def popAttrs (p : Pop) : Attrs :=
+  baseAttrs p ++ propAttrs p.props ++
+    (if p.insts.isEmpty then [("size", match p.size with | some n => AttrV.int n | none => AttrV.none)]
+     else [("size", AttrV.int p.insts.length), ("type", AttrV.str "populationList")])
+
+theorem encodePop_eq (cfg : Cfg) (p : Pop) (hok : PopOK p) :
+    encodePop cfg p = .ok ⟨popLeafName p.id, popAttrs p,
+      if p.insts.isEmpty then [] else [⟨p.id, locCols, locRows cfg p⟩]⟩ := by
+  have hf := fold_setAttr (baseAttrs p) (base_noprop p) p.props [] (by simpa using hok.tagsNodup)
+  simp only [propAttrs, List.map_nil, List.append_nil, List.nil_append] at hf
+  unfold encodePop popAttrs
+  simp only [← baseAttrs.eq_1] at *
+  cases hi : p.insts.isEmpty
+  · simp only [Bool.false_eq_true, if_false]
+    have hfold : List.foldl (fun a kv => setAttr a ("property:" ++ kv.1) (AttrV.str kv.2)) (baseAttrs p) p.props =
+        baseAttrs p ++ propAttrs p.props := hf
+    rw [hfold, setAttr_new _ "size" _ (nokey_a1 p "size" (Or.inl rfl))]
+    rw [setAttr_new _ "type" _ (by
+      rintro ⟨kv, hkv, he⟩
+      rcases List.mem_append.mp hkv with hkv | hkv
+      · exact nokey_a1 p "type" (Or.inr rfl) ⟨kv, hkv, he⟩
+      · simp only [List.mem_cons, List.mem_nil_iff, or_false] at hkv
+        subst hkv
+        simp at he)]
+    simp [locRows]
+  · simp only [if_true]
+    have hfold : List.foldl (fun a kv => setAttr a ("property:" ++ kv.1) (AttrV.str kv.2)) (baseAttrs p) p.props =
+        baseAttrs p ++ propAttrs p.props := hf
+    rw [hfold, setAttr_new _ "size" _ (nokey_a1 p "size" (Or.inl rfl))]
+    rfl
+
+
+theorem pop_roundtrip (cfg : Cfg) (top : List Comp) (p : Pop) (hok : PopOK p) :
+    ∃ leaf p', encodePop cfg p = .ok leaf ∧ leaf.name = popLeafName p.id ∧
+      decodePop cfg top leaf = .ok (p', getById top p.comp) ∧
+      p'.id = p.id ∧ p'.comp = p.comp ∧ (p'.insts = [] ↔ p.insts = []) ∧
+      semPop p' = rPop cfg.r (semPop p) := by
+  rw [encodePop_eq cfg p hok]
+  have hid : strAttr cfg (popAttrs p) "id" = some p.id := by
+    simp [popAttrs, baseAttrs, strAttr, lookupAttr]
+  have hcomp : strAttr cfg (popAttrs p) "component" = some p.comp := by
+    simp [popAttrs, baseAttrs, strAttr, lookupAttr]
+  have hprops : propsOf cfg (popAttrs p) = p.props := by
+    unfold popAttrs
+    apply propsOf_eq cfg p _ hok.tagsCut
+    intro kv hkv
+    split at hkv
+    · simp only [List.mem_cons, List.mem_nil_iff, or_false] at hkv
+      subst hkv; show propPrefix.toList.isPrefixOf "size".toList = false; decide
+    · simp only [List.mem_cons, List.mem_nil_iff, or_false] at hkv
+      rcases hkv with rfl | rfl
+      · show propPrefix.toList.isPrefixOf "size".toList = false; decide
+      · show propPrefix.toList.isPrefixOf "type".toList = false; decide
+  cases hi : p.insts.isEmpty
+  · -- instance based
+    have hne : p.insts ≠ [] := by intro h; simp [h] at hi
+    have hd : (decInsts cfg p).isEmpty = false := by
+      have hl : (decInsts cfg p).length = p.insts.length := zipIdx_length _ _ _
+      cases hdd : decInsts cfg p with
+      | nil => rw [hdd] at hl; exact absurd (List.eq_nil_of_length_eq_zero hl.symm) hne
+      | cons _ _ => rfl
+    refine ⟨_, ⟨p.id, p.comp, some (p.insts.length : Int), some "populationList", decInsts cfg p, p.props⟩,
+      rfl, rfl, ?_, rfl, rfl, ?_, ?_⟩
+    · simp only [decodePop, hid, hcomp, hprops, Bool.false_eq_true, if_false, popSize, popInsts, List.find?,
+        decide_true, decodeLocs_enc, hd]
+      simp [locRows]
+    · constructor
+      · intro h; exact absurd h (by simpa using hd)
+      · intro h; exact absurd h hne
+    · simp only [semPop, rPop, hd, hi, Bool.false_eq_true, if_false]
+      have hl : (decInsts cfg p).length = p.insts.length := zipIdx_length _ _ _
+      congr 1
+      · rw [hl]
+      · exact ids_zipIdx _ (fun _ _ => rfl) 0 p.insts hok.ids
+      · rw [List.map_map]
+        exact map_zipIdx _ _ _ 0 p.insts (fun _ _ _ => rfl)
+  · -- sized
+    have he : p.insts = [] := by simpa using hi
+    obtain ⟨n, hn⟩ := hok.sized he
+    have hsz : lookupAttr (popAttrs p) "size" = some (.int n) := by
+      unfold popAttrs
+      rw [lookupAttr_skip _ _ _ (nokey_a1 p "size" (Or.inl rfl))]
+      simp [hi, hn, lookupAttr]
+    refine ⟨_, ⟨p.id, p.comp, some n, none, [], p.props⟩, rfl, rfl, ?_, rfl, rfl, by simp [he], ?_⟩
+    · simp only [decodePop, hid, hcomp, hprops, if_true, popSize, popInsts, List.find?, hsz]
+      simp
+    · simp [semPop, rPop, he, hn]
+
+end NmlVerif.Hdf5
